@@ -323,4 +323,7 @@ func main() {
 	writeIfChanged(filepath.Join(out, "Alias.v"), p.emitAlias()+p.emitGlobals())
 	writeIfChanged(filepath.Join(out, "WriteGen.v"), p.emitWriteGen())
 	writeIfChanged(filepath.Join(out, "PsiWriteGen.v"), p.emitPsiWriteGen())
+	writeIfChanged(filepath.Join(out, "RestGen.v"), p.emitRestGen())
+	writeIfChanged(filepath.Join(out, "RestData.v"), p.emitRestData())
+	writeIfChanged(filepath.Join(out, "RestDesc.v"), p.emitRestDesc())
 }
